@@ -5,6 +5,11 @@ V = os.path.dirname(os.path.dirname(os.path.abspath(__file__)))
 props = [json.loads(l) for l in open(os.path.join(V, "properties.jsonl"))]
 TB = "Trusted: rustc's MIR construction and type checking (nightly 1.97, mir-opt-level=0), the checker's own abstract interpreter / rule code (validated against seeded mutants and benign edits), std collection semantics."
 CLAIMS = {
+ "C06": dict(
+   technique="decision-table extraction (abstract interpretation of MIR with map lookups as oracle predicates) for the fold closures and classification loops; walker visit sequences; per-category table of the 'used' set",
+   text="Static, partial by design: the 'used' set is fed from a depth-complete traversal (inductive walker rule) and the resolver callback inserts the resolved key / the built-in's qualified name for every category; the duplicate-detection folds and the per-entry classification loops of check_imports and check_declared_parcelables are tabulated over their oracle predicates (occupied / vacant, defined, built-in, used, conflicting import) and compared with the statement: which diagnostic (kind, range on the statement's name or whole extent, back-reference), exactly once, and nothing else. The string contents of the sets are not decided.",
+   note=TB + " Map lookups are oracle bits (std semantics).",
+   design="DESIGN.md section 4, C06"),
  "C05": dict(
    technique="visit-sequence extraction of the mutable type walker (inductive depth), path enumeration of resolve_type by abstract interpretation with the lookups as oracles, table extraction of the built-in tables",
    text="Static, partial by design: (a) every type node at any depth reaches the resolver (walker sequence per configuration + induction on the recursive helper); (b) on every path through resolve_type an unresolved reference ends with exactly one classification or exactly one Error on its name, classified nodes are untouched; (c) built-in name tables, get_all completeness, lookup predicates, Item::get_kind and the shape of the project key map are tabulated against spec/builtins.json; (d) per path, the order import -> forward declaration -> built-in, the kind coming from the project map under the very key that matched, and built-in precedence over an import of the built-in. String-matching semantics of the searches (exact / suffix match, near misses) are NOT decided.",
